@@ -152,6 +152,15 @@ func e4Case(seed uint64, n int, mode string, race bool) Case {
 		failed := false
 		for ph := 0; ph < phases && !failed; ph++ {
 			nm := 2 + rng.Intn(8)
+			if (mode != "mixed" && ph == 1) || (mode == "mixed" && rng.Chance(10)) {
+				// everything disappears (e.g. while the watch is down): the next list
+				// is EMPTY and must clear the cache
+				for _, o := range srv.Objects() {
+					srv.Delete(o.GetNamespace(), o.GetName())
+				}
+				nm = 0
+				r.Add("drain-all-phases", 1)
+			}
 			for i := 0; i < nm; i++ {
 				u.mutate(rng, srv)
 				switch rng.Intn(4) {
